@@ -398,6 +398,8 @@ Definition reg_ret (s : sys) (o : oid) (p : op) (k : regk) (ty : nat) (r : rval)
       | Some _ => check rval_eqb r (RErr EStillRunning) else 3325 ;; Acc s0
       | None =>
           check rval_eqb r (RInst (reg s ty)) else 3326 ;;
+          (* the operation owns the address it registers: the registrant is referenced *)
+          check (match actors s (op_a p) with Some b => upgradable b | None => false end) else 3335 ;;
           s1 <- adj_refs s0 (op_a p) true ;;
           s2 <- release_entry s1 ty ;;
           Acc (set_reg (upd (reg s2) ty (op_a p)) s2)
@@ -405,6 +407,7 @@ Definition reg_ret (s : sys) (o : oid) (p : op) (k : regk) (ty : nat) (r : rval)
   | RgReplace =>
       check negb (rlock s) else 3327 ;;
       check rval_eqb r (RInst (reg s ty)) else 3328 ;;
+      check (match actors s (op_a p) with Some b => upgradable b | None => false end) else 3336 ;;
       s1 <- adj_refs s0 (op_a p) true ;;
       s2 <- release_entry s1 ty ;;
       Acc (set_reg (upd (reg s2) ty (op_a p)) s2)
